@@ -821,6 +821,42 @@ def decoding_is_fresh(ctx):
         FJ.HAS_ORJSON = saved
 
 
+def other_encoders(ctx):
+    """Whatever else fast_json offers for encoding (names containing 'dumps' besides dumps itself) is held to the same two
+    demands, generically: under both back ends the same JSON value in the same frame shape, and a frame shape - type of the
+    result, terminating line feed or not, no raw line break inside - that depends on the keyword arguments only, never on the
+    VALUE (values orjson encodes itself and values it refuses and leaves to the standard library alike)."""
+    vals = [{"a": 1}, [1, "x", None], {"n": 2 ** 64}, {"n": -(2 ** 63) - 1}, {"n": 10 ** 30}, {"s": "é\u2028\n"}, {"f": 1.5},
+            {"k": {"k": []}}, ("$deep", "array", 300), ("$deep", "object", 300), ("$deep", "mixed", 260), {"jsonrpc": "2.0", "id": 1, "method": "m"}]
+    docs = {b: run_worker(b, {"encoder_values": vals, "kwsets": []}) for b in BACKENDS}
+    names = sorted(set().union(*[set(d.get("encoders", {})) for d in docs.values()]))
+    ctx.extra["other_encoders_of_fast_json"] = names
+    for n in names:
+        for kw in sorted(set().union(*[set(d["encoders"].get(n, {})) for d in docs.values()])):
+            rows = {b: docs[b]["encoders"].get(n, {}).get(kw) for b in BACKENDS}
+            for i, v in enumerate(vals):
+                case = {"encoder": n, "kwargs": kw, "value": repr(v)[:120]}
+                ctx.case(case, nontrivial=True)
+                ctx.count("other-encoder:" + n)
+                obs = {b: rows[b][i] if rows[b] is not None else ("absent",) for b in BACKENDS}
+                ok = [o for o in obs.values() if o[0] == "ok"]
+                ctx.spec_total += 1
+                if len(ok) == len(BACKENDS) and len({o[1:] for o in ok}) > 1:
+                    ctx.spec_violation(f"{n}:back-ends-differ", case, repr(obs)[:400])
+                for b, o in obs.items():
+                    if o[0] == "ok" and (o[3] or o[4].startswith("undecodable")):
+                        ctx.spec_violation(f"{n}:not-one-frame:{b}", case, repr(o)[:300])
+            for b in BACKENDS:
+                shapes = {(o[1], o[2]) for o in (rows[b] or []) if o[0] == "ok"}
+                ctx.spec_total += 1
+                if len(shapes) > 1:
+                    first = next(i for i, o in enumerate(rows[b]) if o[0] == "ok" and (o[1], o[2]) != (rows[b][0][1], rows[b][0][2])) \
+                        if rows[b][0][0] == "ok" else 0
+                    ctx.spec_violation(f"{n}:frame-shape-depends-on-the-value:{b}",
+                                       {"encoder": n, "kwargs": kw, "value": repr(vals[first])[:120], "backend": b},
+                                       f"(result type, ends with a line feed) over the values: {sorted(shapes)}")
+
+
 def run(ctx):
     lib.standard_obligations(ctx, GEN, TARGETS)
     spec = lib.Driver("C17Spec")
@@ -857,6 +893,7 @@ def run(ctx):
     very_deep_probe(ctx)
     frames_through_the_reader(ctx)
     decoding_is_fresh(ctx)
+    other_encoders(ctx)
     ctx.exhaustive = False
     if ctx.thorough:
         lib.coqchk(ctx, "C17")
@@ -877,6 +914,11 @@ def run(ctx):
 
 def replay(ctx, data):
     _c = data.get("case", {})
+    if isinstance(_c, dict) and "encoder" in _c:
+        other_encoders(ctx)
+        for f in ctx.spec_fail:
+            print("REPRODUCED", f["class"], f["detail"][:200])
+        return 1 if ctx.spec_fail else 0
     if isinstance(_c, dict) and "decode_twice" in _c:
         decoding_is_fresh(ctx)
         for f in ctx.spec_fail:
